@@ -1557,7 +1557,8 @@ class Kconfig(object):
                     choices_with_user_set_value[sym.choice].append((sym, val))
                     continue
 
-                if sym._was_set:
+                # _was_set survives unset_value() / a reset to the default: no user value, no second assignment
+                if sym._was_set and sym._user_value is not None:
                     self._assigned_twice(sym, val, filename, linenr)
 
                 # Normalize float values to ensure consistent representation (e.g., "5" -> "5.0")
